@@ -115,9 +115,15 @@ func (x *c17World) door(name, pw string) (c *world.Client, class string) {
 func (x *c17World) apply(op string) bool {
 	p := strings.Split(op, ":")
 	switch p[0] {
-	case "kick":
+	case "kick", "deafkick":
 		if x.tgt == nil {
 			return false
+		}
+		if p[0] == "deafkick" {
+			// the target stops reading and a broadcast to it is pending when the administrator disconnects it
+			x.tgt.Conn.Stalled = true
+			x.adm.Req(ref.TUserBroadcast, ref.FS(ref.FData, strings.Repeat("b", 40000)))
+			world.Settle(2 * time.Second)
 		}
 		x.adm.New()
 		fs := []ref.Fld{ref.F16(ref.FUserID, x.tgtID)}
@@ -297,7 +303,7 @@ func c17Exec(hist []string) (res explore.SeqResult) {
 }
 
 func c17Alphabet() []string {
-	return []string{"kick:none", "kick:temp", "kick:perm", "conn:A:right", "conn:A:wrong", "conn:A2:right", "conn:A2:wrong", "conn:B:right", "conn:C:right", "conn:B:wrong",
+	return []string{"kick:none", "kick:temp", "kick:perm", "deafkick:none", "deafkick:temp", "conn:A:right", "conn:A:wrong", "conn:A2:right", "conn:A2:wrong", "conn:B:right", "conn:C:right", "conn:B:wrong",
 		"restart", "tick:1s", "tick:25m", "tick:31m", "tick:24h"}
 }
 
